@@ -9,5 +9,6 @@ CONSTANTS
   NT <- NumText
   NTL <- NumTextLoc
   CV <- Convert
+  RV <- ReadVec
 INVARIANTS LawBytesRoundTrip LawBytesLayout LawSwap LawConvert
 CHECK_DEADLOCK FALSE
